@@ -107,6 +107,17 @@ def distribute(
                 )
                 break
 
+    # Computations fixed on an agent must fit in its capacity.
+    for agent in agentsdef:
+        fixed_footprint = sum(
+            f for a, f in fixed_mapping.values() if a == agent.name
+        )
+        if fixed_footprint > agent.capacity:
+            raise ImpossibleDistributionException(
+                f"Impossible Distribution, computations with hosting cost 0 on "
+                f"{agent.name} exceed its capacity"
+            )
+
     # Sort computation by footprint, but add a random element to avoid sorting on names
     computations = [
         (computation_memory(n), n, None, random.random())
